@@ -73,12 +73,12 @@ impl Session {
         let logger = self.logger.clone();
         // Build a temporary context for this thread
         // Cloning the handle creates an invalidated copy of itself that can fo everything but committing  or aborting.
-        let child_ctx = self.ctx.create_child()?;
+        let child_ctx = self.ctx.create_child()?.with_statement_journal();
 
         self.task_runner
             .run_with_result(move |_| {
                 let runner = QueryRunner::new(child_ctx, logger.clone());
-                let result = runner.prepare_and_run(&sql).map_err(box_err)?;
+                let result = runner.prepare_and_run_atomically(&sql).map_err(box_err)?;
 
                 Ok(result)
             })
